@@ -66,8 +66,10 @@ type env struct {
 	obs       []interface {
 		Cancel(ctx context.Context, opts ...message.Option) error
 	}
-	reqs  []memnet.Dgram
-	taken map[int]bool
+	reqs   []memnet.Dgram
+	taken  map[int]bool
+	obsTok [][]byte // tokens of the live observations (parallel to obs)
+	nseq   uint32
 }
 
 func (e *env) scan() {
@@ -361,6 +363,7 @@ func (e *env) run(kind string) (bool, string) {
 		okw := c.wait()
 		if kind == "obsOK" && c.err == nil {
 			e.obs = append(e.obs, o)
+			e.obsTok = append(e.obsTok, append([]byte(nil), q.Token...))
 		}
 		return okw, outcome(c)
 	case "obsCancel", "obsCancelRefused", "obsCancelGiveUp":
@@ -369,6 +372,9 @@ func (e *env) run(kind string) (bool, string) {
 		}
 		o := e.obs[len(e.obs)-1]
 		e.obs = e.obs[:len(e.obs)-1]
+		if len(e.obsTok) > 0 {
+			e.obsTok = e.obsTok[:len(e.obsTok)-1]
+		}
 		c := e.async(func() (*pool.Message, error) { return nil, o.Cancel(ctx) })
 		q, ok := e.waitOut(func(d memnet.Dgram) bool {
 			v, err := d.Opts.Observe()
@@ -398,6 +404,19 @@ func (e *env) run(kind string) (bool, string) {
 			cancel()
 		}
 		return c.wait(), outcome(c)
+	case "obsNotifyEtag":
+		// three small notifications of the latest observation, each with an ETag of its own (the observation remembers the ETag
+		// of the newest notification - by value: the notification's message goes back to the pool when the callback returns)
+		if len(e.obsTok) == 0 {
+			return false, "noobservation"
+		}
+		tok := e.obsTok[len(e.obsTok)-1]
+		for k := 0; k < 3; k++ {
+			e.nseq++
+			et := bytes.Repeat([]byte{byte(0x41 + e.nseq%20)}, 8)
+			e.inject(message.NonConfirmable, codes.Content, e.nextMID(), tok, message.Options{{ID: message.ETag, Value: et}, {ID: message.Observe, Value: []byte{byte(10 + e.nseq)}}}, []byte("nnnnnnnnnnnnnnnn"))
+		}
+		return true, "notified"
 	case "pingForget":
 		// a fire-and-forget liveness probe: AsyncPing whose cancel function is never called, the peer stays silent - the
 		// housekeeping sweep is the only thing that ends its continuation (after the retransmissions are exhausted)
@@ -464,6 +483,22 @@ func (e *env) run(kind string) (bool, string) {
 			e.inject(message.Confirmable, codes.GET, e.nextMID(), tok, message.Options{{ID: message.URIPath, Value: []byte("big")}}, nil)
 			ok = hooks.WaitFor(conns.WD, func() bool { return e.u.Sess.OutLen() > from }) && ok
 		}
+		e.scan()
+		for i := range e.reqs {
+			e.taken[i] = true
+		}
+		return ok, "served"
+	case "srvBwDownBadCont":
+		// the peer asks for a large resource (the response is held for the later blocks) and then for a block far beyond its end:
+		// the transfer ends by error - the held response is dropped at once, not when its timeout passes
+		tok := []byte{0x5c, byte(e.n)}
+		ok := true
+		from := e.u.Sess.OutLen()
+		e.inject(message.Confirmable, codes.GET, e.nextMID(), tok, message.Options{{ID: message.URIPath, Value: []byte("big")}}, nil)
+		ok = hooks.WaitFor(conns.WD, func() bool { return e.u.Sess.OutLen() > from }) && ok
+		from = e.u.Sess.OutLen()
+		e.inject(message.Confirmable, codes.GET, e.nextMID(), tok, message.Options{{ID: message.URIPath, Value: []byte("big")}, {ID: message.Block2, Value: blk(0, 1000, false)}}, nil)
+		hooks.WaitFor(50*time.Millisecond, func() bool { return e.u.Sess.OutLen() > from })
 		e.scan()
 		for i := range e.reqs {
 			e.taken[i] = true
